@@ -502,6 +502,13 @@ def opParse (prop : String) (j : Json) (extra : ParseCtx → Verdict → R Verdi
       v := v.addDetail "model_outcome" (Json.str e)
     | _, none => same := false
   v := v.addCorr "parse" same
+  -- hypothesis `EnvOk` of `Props.ParseTotal.addContent_stops`: the line/column table sent by the
+  -- harness is defined on every character boundary of every text
+  let envOk := files.all fun (id, text) =>
+    let env := Parse.mkEnv text ((lcs.lookup id).getD [])
+    let bounds := text.toList.foldl (fun (acc : List Nat × Nat) c => (acc.1 ++ [acc.2 + c.utf8Size], acc.2 + c.utf8Size)) ([0], 0)
+    bounds.1.all fun n => (env.lineCol n).isSome
+  v := v.addAssume "envok" envOk
   let tagsOk := (impl.getObjVal? "tags_ok").toOption.bind (·.getBool?.toOption) |>.getD true
   v := v.addCorr "outcome" true
   let ctx : ParseCtx := { files, lcs, stage1, out, model, case := j }
